@@ -36,6 +36,7 @@ def main():
     ap.add_argument("prop")
     ap.add_argument("patch")
     ap.add_argument("demo")
+    ap.add_argument("--scratch", action="store_true", help="apply the patch to a scratch worktree of /repo HEAD and point the checks at it (VERIF_REPO) instead of patching /repo itself; used while other runs read /repo")
     ap.add_argument("--checks", default=None)
     ap.add_argument("--tier", default="quick")
     ap.add_argument("--needs", default="")
@@ -99,25 +100,35 @@ def main():
             shutil.rmtree(wt, ignore_errors=True)
             sh("git worktree prune", cwd=REPO)
 
-    # run the checks against /repo with the patch applied
-    rc, o = sh(f"git apply {patch}", cwd=REPO)
+    # run the checks against /repo with the patch applied (or against a scratch worktree of the same HEAD with --scratch)
+    target = REPO
+    if a.scratch:
+        target = f"/tmp/seedcheck-run-{a.name}-{os.getpid()}"
+        sh(f"git worktree remove --force {target}", cwd=REPO)
+        rc, o = sh(f"git worktree add -q --detach {target} HEAD", cwd=REPO)
+        assert rc == 0, o
+    rc, o = sh(f"git apply {patch}", cwd=target)
     if rc != 0:
-        print("cannot apply to /repo:", o[-300:])
+        print("cannot apply to", target, o[-300:])
         sys.exit(4)
     results = meta.setdefault("checks", {})
     try:
         for c in checks:
             t0 = time.time()
-            rc, o = sh(f"./check {c} --tier {a.tier} --no-evidence", cwd=VERIF, env={"VERIF_SEED": a.seed, "VERIF_REPLAY_DIR": "/tmp/seedcheck-replays"}, timeout=7200)
+            rc, o = sh(f"./check {c} --tier {a.tier} --no-evidence", cwd=VERIF, env={"VERIF_SEED": a.seed, "VERIF_REPLAY_DIR": "/tmp/seedcheck-replays", "VERIF_REPO": target}, timeout=7200)
             vio = [l for l in o.splitlines() if l.startswith("VIOLATION")]
             what = [l.strip() for l in o.splitlines() if l.strip().startswith("what:")]
             verdict = "caught" if rc == 1 and vio else ("inconclusive" if rc == 2 else ("missed" if rc == 0 else f"exit{rc}"))
-            results[f"{c}:{a.tier}:seed{a.seed}"] = {"verdict": verdict, "exit": rc, "violations": len(vio), "first_what": what[:3], "wall_s": round(time.time() - t0, 1), "repo_head": head}
+            results[f"{c}:{a.tier}:seed{a.seed}"] = {"verdict": verdict, "exit": rc, "violations": len(vio), "first_what": what[:3], "wall_s": round(time.time() - t0, 1), "repo_head": head, "applied_to": "scratch worktree of HEAD" if a.scratch else "/repo"}
             print(f"{a.name}: check {c} ({a.tier}) -> {verdict} rc={rc} {what[:2]}")
             if rc not in (0, 1, 2):
                 print(o[-1500:])
     finally:
-        sh("git checkout -- .", cwd=REPO)
+        sh("git checkout -- .", cwd=target)
+        if a.scratch:
+            sh(f"git worktree remove --force {target}", cwd=REPO)
+            shutil.rmtree(target, ignore_errors=True)
+            sh("git worktree prune", cwd=REPO)
         rc, st = sh("git status --porcelain", cwd=REPO)
         assert not st.strip(), st
     json.dump(meta, open(meta_path, "w"), indent=1)
